@@ -413,6 +413,7 @@ class Ctx:
     # -- standard phases
     def prove(self, gen_names, prop_modules, extra_targets=()):
         """translate -> lake build -> audit.  Records broken ties / proofs. Returns True if all fine."""
+        self._prop_modules = list(prop_modules)
         with lean_lock():
             broken_tr = self.lean.translate(gen_names) if gen_names else []
             for k, err in broken_tr:
@@ -516,8 +517,9 @@ class Ctx:
         cov.update(
             obligations=max(self.obligations, 1),
             discharged=self.discharged,
-            checker_cmd=checker_cmd or ("cd lean && lake build OsacaVerif.Props.%s  # + `#print axioms` audit of every "
-                                        "theorem and forbidden-token grep (harness/core.py:audit)" % self.pid),
+            checker_cmd=checker_cmd or ("cd lean && lake build %s  # + `#print axioms` audit of every theorem and "
+                                        "forbidden-token grep (harness/core.py:audit)"
+                                        % " ".join(getattr(self, "_prop_modules", None) or ["OsacaVerif.Props.%s" % self.pid])),
             trusted_base=trusted or [],
             axioms={k: v for k, v in self.lean.axioms.items()},
             translator={k: {kk: vv for kk, vv in v.items() if kk != "trace"} for k, v in self.lean.translate_status.items()},
